@@ -75,7 +75,7 @@ theorem consumer_enforced_https (cfg : Cfg) (evs : List CEv) (h : cfg.cons = .en
   rw [h] at hacc ⊢
   have hs := (consumer_enforced_no_fallback evs).1
   rw [hs] at hacc ⊢
-  cases hc : cfg.consServer <;> simp_all [urlScheme, consServerTls, eventSinkAccepted]
+  cases hc : cfg.consServer <;> simp_all [urlScheme, consServerTls, eventSinkAccepted, eventSinkAcceptedFor]
 
 /-- the same for a consumer in optional mode that got a TLS connection: from then on as if enforced -/
 theorem consumer_optional_sticky (evs evs' : List CEv)
@@ -96,9 +96,20 @@ theorem ca_requires_cert : verifyMode false true = .certRequired ∧ verifyMode 
 
 /-- ... and that is what `mk_ssl_contexts` produced when the translator ran it (all four combinations) -/
 theorem generated_verify_matches :
-    (∀ e ∈ Generated.C19.verifyObserved, verifyMode e.1 e.2.1 = e.2.2) ∧
-    (false, true, Verify.certRequired) ∈ Generated.C19.verifyObserved ∧
-    (true, true, Verify.certRequired) ∈ Generated.C19.verifyObserved := by decide
+    Generated.C19.verifyObserved.length = 8 ∧
+    (∀ e ∈ Generated.C19.verifyObserved, verifyModeWith e.1 e.2.1 e.2.2.1 = e.2.2.2) ∧
+    (∀ cy, (false, true, cy, Verify.certRequired) ∈ Generated.C19.verifyObserved) ∧
+    (∀ cy, (true, true, cy, Verify.certRequired) ∈ Generated.C19.verifyObserved) := by decide
+
+/-- a CA file means CERT_REQUIRED on both sides also when a cyphers string is configured -/
+theorem ca_requires_cert_with_cyphers (server cy : Bool) : verifyModeWith server true cy = .certRequired := by
+  cases server <;> cases cy <;> rfl
+
+/-- the spelling of the provider address (`http://…` / `https://…`) given to an enforcing consumer has no influence: a
+    plaintext shared event-sink server is refused whenever the connection uses TLS -/
+theorem event_sink_guard_ignores_address_spelling (cfg : Cfg) (sp : Scheme) (h : cfg.consServer = .sharedPlain) :
+    eventSinkAcceptedFor cfg (some true) sp = false := by
+  simp [eventSinkAcceptedFor, h]
 
 /-- `mk_ssl_contexts_from_folder`: a CA file that is named (default `cacert.pem`) but missing refuses -/
 theorem missing_ca_file_refused (k c : Bool) : fromFolder k c true false = .fileNotFound := by
@@ -106,14 +117,14 @@ theorem missing_ca_file_refused (k c : Bool) : fromFolder k c true false = .file
 
 /-- ... so whenever a CA file is named, a returned context pair requires the peer certificate on both sides: no pair with a
     `CERT_NONE` server side is ever returned -/
-theorem named_ca_never_degrades (k c p : Bool) (cl sv : Verify) (h : fromFolder k c true p = .contexts cl sv) :
+theorem named_ca_never_degrades (k c p cy : Bool) (cl sv : Verify) (h : fromFolderWith k c true p cy = .contexts cl sv) :
     cl = .certRequired ∧ sv = .certRequired := by
-  cases k <;> cases c <;> cases p <;> simp [fromFolder, verifyMode] at h <;> exact ⟨h.1.symm, h.2.symm⟩
+  cases k <;> cases c <;> cases p <;> simp [fromFolderWith, fromFolder, verifyMode] at h <;> exact ⟨h.1.symm, h.2.symm⟩
 
 /-- the decision table observed on real folders (every combination of present / missing files) is the model's -/
 theorem generated_folder_matches :
-    Generated.C19.folderObserved.length = 16 ∧
-    ∀ e ∈ Generated.C19.folderObserved, fromFolder e.1 e.2.1 e.2.2.1 e.2.2.2.1 = e.2.2.2.2 := by decide
+    Generated.C19.folderObserved.length = 32 ∧
+    ∀ e ∈ Generated.C19.folderObserved, fromFolderWith e.1 e.2.1 e.2.2.1 e.2.2.2.1 e.2.2.2.2.1 = e.2.2.2.2.2 := by decide
 
 /-- every model site was found in the messages of the real exchange, and nothing else (an unmapped address context makes
     the translator fail) -/
